@@ -1,8 +1,131 @@
 import PymtlVerif.Driver.Sexp
-/-! Handler `names` (stub: not built yet). -/
-namespace PV.Driver.Names
-open PV
+import PymtlVerif.Model.Names
+/-!
+Handler `names`: executable face of `Model/Names.lean` for the C13 correspondence check.
 
-def handle (_args : List Sexp) : Option String := none
+Strings travel as lists of code points (`(73 110)` = "In", `()` = ""), because names under test contain blanks and
+parentheses. The hash `H` is supplied by the harness as a finite table `((input digest) ...)`; an input that is not
+in the table is answered with the marker `\x01 input \x02`, which the harness resolves (blake2b) and re-sends.
+-/
+namespace PV.Driver.Names
+open PV PV.Names
+
+def str? : Sexp → Option String
+  | .list xs => do
+    let ns ← xs.mapM Sexp.nat?
+    some (String.ofList (ns.map Char.ofNat))
+  | _ => none
+
+def strs? : Sexp → Option (List String)
+  | .list xs => xs.mapM str?
+  | _ => none
+
+def showStr (s : String) : String :=
+  "(" ++ " ".intercalate (s.toList.map (fun c => toString c.toNat)) ++ ")"
+
+def showStrs (ss : List String) : String := "(" ++ " ".intercalate (ss.map showStr) ++ ")"
+
+def hashOf (tbl : List (String × String)) (s : String) : String :=
+  match tbl.lookup s with
+  | some d => d
+  | none => "\x01" ++ s ++ "\x02"
+
+def htable? : Sexp → Option (List (String × String))
+  | .list xs => xs.mapM (fun
+      | .list [a, b] => do some (← str? a, ← str? b)
+      | _ => none)
+  | _ => none
+
+partial def dt? : Sexp → Option DT
+  | .list [.atom "vec", n] => do some (.vec (← n.nat?))
+  | .list [.atom "struct", cls, .list fs] => do
+      let fs ← fs.mapM (fun
+        | .list [n, t] => do some (← str? n, ← dt? t)
+        | _ => none)
+      some (.struct (← str? cls) fs)
+  | .list [.atom "arr", dims, sub] => do some (.arr (← dims.nats?) (← dt? sub))
+  | _ => none
+
+def pval? : Sexp → Option PVal
+  | .list [.atom "int", i] => do some (.int (← i.int?))
+  | .list [.atom "bool", b] => do some (.bool (← b.bool?))
+  | .list [.atom "str", s] => do some (.str (← str? s))
+  | .list [.atom "none"] => some .none
+  | .list [.atom "bits", n, v] => do some (.bits (← n.nat?) (← v.nat?))
+  | .list [.atom "type", s] => do some (.type (← str? s))
+  | .list [.atom "struct", cls, .list fs] => do
+      match ← dt? (.list [.atom "struct", cls, .list fs]) with
+      | .struct c f => some (.structT c f)
+      | _ => none
+  | .list [.atom "other", s] => do some (.other (← str? s))
+  | _ => none
+
+def params? : Sexp → Option (List (String × PVal))
+  | .list xs => xs.mapM (fun
+      | .list [k, v] => do some (← str? k, ← pval? v)
+      | _ => none)
+  | _ => none
+
+partial def tree? : Sexp → Option (Tree Nat)
+  | .list [r, n, b, .list cs] => do
+      some (.node (← str? r) (← str? n) (← b.nat?) (← cs.mapM tree?))
+  | _ => none
+
+partial def ifc? : Sexp → Option Ifc
+  | .list [n, ps, .list subs] => do some (.mk (← str? n) (← strs? ps) (← subs.mapM ifc?))
+  | _ => none
+
+def module? : Sexp → Option Module
+  | .list [n, ids, .list insts] => do
+      let insts ← insts.mapM (fun
+        | .list [a, b] => do some (← str? a, ← str? b)
+        | _ => none)
+      some ⟨← str? n, ← strs? ids, insts⟩
+  | _ => none
+
+def showTable (t : List (String × Nat)) : String :=
+  "(" ++ " ".intercalate (t.map (fun e => "(" ++ showStr e.1 ++ " " ++ toString e.2 ++ ")")) ++ ")"
+
+def handle (args : List Sexp) : Option String :=
+  match args with
+  -- component name: full name, plain(1)/hashed(0), hashed part, unique name (code as it is), unique name (repaired)
+  | [.atom "uniq", h, cls, ps] => do
+      let H := hashOf (← htable? h)
+      let cls ← str? cls
+      let ps := images H (← params? ps)
+      let f := fullName cls ps
+      let plain := f.length < 64 && !hasSpecial f
+      some s!"{showStr f} {b2s plain} {showStr (nameTail ps)} {showStr (uniqueName H cls ps)} {showStr (uniqueNameR H cls ps)}"
+  -- struct type name: full name, field string, name
+  | [.atom "sname", h, cls, .list fs] => do
+      let H := hashOf (← htable? h)
+      match ← dt? (.list [.atom "struct", cls, .list fs]) with
+      | .struct c f => some s!"{showStr (DT.fullName (.struct c f))} {showStr (fieldStr f)} {showStr (structName H c f)}"
+      | _ => none
+  | [.atom "image", h, v] => do
+      let H := hashOf (← htable? h)
+      some (showStr ((← pval? v).image H))
+  -- the walk: table in emission order, aliased instances, verdict of the repaired walk
+  | [.atom "walk", t] => do
+      let t ← tree? t
+      let post := t.post
+      let tbl := translateAll post
+      let chk := match translateChecked post with
+        | .ok _ => "ok ()"
+        | .error n => "err " ++ showStr n
+      some s!"{showTable post} {showTable tbl} {showTable (aliased post)} {chk}"
+  | [.atom "wf", tds, .list ms] => do
+      let t : ModTable := ⟨← strs? tds, ← ms.mapM module?⟩
+      let d := wfDiag t
+      some s!"{b2s (wfModules t)} {d.1} {showStr d.2}"
+  | [.atom "skel", ports, .list ifcs, comb, seq] => do
+      let ifcs ← ifcs.mapM ifc?
+      some s!"{showStrs (portOrder (← strs? ports) ifcs)} {showStrs (blockOrder (← strs? comb) (← strs? seq))}"
+  | [.atom "sort", xs] => do some (showStrs (sortByKey id (← strs? xs)))
+  | [.atom "legal", s] => do
+      let s ← str? s
+      some s!"{b2s (idShape s)} {b2s (legalId s)}"
+  | [.atom "reserved"] => some (showStrs verilogReserved)
+  | _ => none
 
 end PV.Driver.Names
